@@ -163,9 +163,13 @@ class Cadence(collections.abc.MutableSequence):
         to :func:`~setigen.frame.Frame.add_signal`.
         """
         for frame in self.frames:
-            frame.ts += frame.t_start - self.t_start
-            frame.add_signal(*args, **kwargs)
-            frame.ts -= frame.t_start - self.t_start
+            ts = frame.ts
+            frame.ts = ts + (frame.t_start - self.t_start)
+            try:
+                frame.add_signal(*args, **kwargs)
+            finally:
+                # Restore the original time axis exactly, even on errors
+                frame.ts = ts
         
     def apply(self, func):
         """
